@@ -447,7 +447,11 @@ def inline_calls(facts, hfn, depth=3, budget=6000, skip=()):
                 mapping = param_mapping(h2, cargs)
                 if (mapping or not h2.get('params')) and _count_nodes(h2['body']) < budget:
                     body = beta(subst(h2['body'], mapping))
-                    return inline(body, d - 1, stack | {dd})
+                    res = inline(body, d - 1, stack | {dd})
+                    if isinstance(res, dict) and res.get('k') == 'block':
+                        res = dict(res)
+                        res['inl'] = dd          # marks the body of an inlined call (a `return` inside leaves only it)
+                    return res
             return n2
         if isinstance(n, list):
             return [inline(x, d, stack) for x in n]
@@ -459,3 +463,80 @@ def inlined_fn(facts, hfn, depth=3, keep=()):
     """keep: suffixes of function paths whose calls are left in place (the calls a rule is about)"""
     skip = {d for d in facts.hir if any(d.endswith(k) for k in keep)} if keep else ()
     return {'path': hfn['path'], 'params': hfn.get('params', []), 'body': inline_calls(facts, hfn, depth, skip=skip)}
+
+
+def new_combo_or_sites(facts, hfn, field='new_combo'):
+    """sites where a flag is or-ed into `<obj>.new_combo`: list of (flag expr, multiplicity).
+    Direct form `x.new_combo |= f` counts once; `*p |= f` where p comes from a crate-local accessor returning
+    `&mut _.new_combo` counts once per `&mut _.new_combo` in that accessor (one per object kind)."""
+    inits = binding_inits(hfn)
+    sites = []
+
+    def peel(e):
+        while isinstance(e, dict) and ((e.get('k') == 'block' and not e.get('stmts') and 'expr' in e) or e.get('k') == 'addr'):
+            e = e['expr'] if e.get('k') == 'block' else e['e']
+        return e
+
+    def accessor_count(call):
+        d = call.get('def') if call.get('k') == 'mcall' else (call['f'].get('def') if call.get('k') == 'call' and call['f'].get('k') == 'path' else None)
+        h2 = facts.hir.get(d) if d and dict.__contains__(facts.hir, d) else None
+        if h2 is None:
+            return 0
+        n = [0]
+
+        def v(x, anc):
+            if x.get('k') == 'addr' and x.get('mut', True):
+                t = peel(x['e'])
+                if isinstance(t, dict) and t.get('k') == 'field' and t.get('n') == field:
+                    n[0] += 1
+        walk(h2['body'], v)
+        return n[0]
+
+    def visit(n, anc):
+        if n.get('k') != 'assignop' or n.get('op') not in ('BitOr', 'BitOrAssign'):
+            return
+        l = n['l']
+        while isinstance(l, dict) and l.get('k') == 'block' and not l.get('stmts') and 'expr' in l:
+            l = l['expr']
+        if isinstance(l, dict) and l.get('k') == 'field' and l.get('n') == field:
+            sites.append((n['r'], 1, n))
+            return
+        if isinstance(l, dict) and l.get('k') == 'unary' and l.get('op') == 'Deref':
+            t = peel(l['e'])
+            if isinstance(t, dict) and t.get('k') == 'local':
+                for i in inits.get(t['name'], []):
+                    i2 = peel(i)
+                    if isinstance(i2, dict) and i2.get('k') in ('mcall', 'call'):
+                        c = accessor_count(i2)
+                        if c:
+                            sites.append((n['r'], c, n))
+                            return
+    walk(hfn['body'], visit)
+    return sites
+
+
+COND_POS = {('if', 't'), ('if', 'e'), ('match', 'arms'), ('loop', 'body'), ('closure', 'body')}
+
+
+def walk_paths(root, fn):
+    """pre-order walk calling fn(node, path) with path = [(ancestor, key under which the walk descended)]"""
+    def rec(n, path):
+        if isinstance(n, dict):
+            fn(n, path)
+            for k, v in n.items():
+                if k in CHILD_SKIP:
+                    continue
+                if isinstance(v, (dict, list)):
+                    rec_child(n, k, v, path)
+        elif isinstance(n, list):
+            for x in n:
+                rec(x, path)
+
+    def rec_child(parent, k, v, path):
+        p2 = path + [(parent, k)]
+        if isinstance(v, list):
+            for x in v:
+                rec(x, p2)
+        else:
+            rec(v, p2)
+    rec(root, [])
